@@ -15,7 +15,7 @@ from .types import Chunks2d
 
 def _find_common_type(array_types, scalar_types):
     # TODO: don't use find_common_type as it's being removed from numpy
-    return np.find_common_type(array_types, scalar_types)
+    return np.result_type(*array_types, *scalar_types)
 
 
 class BlockAssembler:
